@@ -3781,6 +3781,12 @@ static void handle_oc_property_decl(Chunk *os)
             }
          }
 
+         if (curr_chunk == open_paren)
+         {
+            // '@property ()': no attribute was placed behind the parenthesis, it is not one of the leftovers
+            curr_chunk = curr_chunk->GetNext();
+         }
+
          // Remove the extra comma's that we did not move
          while (  curr_chunk->IsNotNullChunk()
                && curr_chunk->IsNot(CT_PAREN_CLOSE))
